@@ -43,6 +43,10 @@ pub struct DefaultProblemData<T> {
 
     pub(crate) presolver: Option<Presolver<T>>,
 
+    // the infinity bound in force when the data were built.
+    // Entries of b are capped at this value, here and on update
+    pub(crate) infbound: T,
+
     #[cfg(feature = "sdp")]
     pub(crate) chordal_info: Option<ChordalInfo<T>>,
 }
@@ -154,6 +158,7 @@ where
             normq,
             normb,
             presolver,
+            infbound,
             #[cfg(feature = "sdp")]
             chordal_info,
         }
